@@ -146,8 +146,27 @@ func clientCase(seed uint64, idx int) *CaseSpec {
 		c.UseStub(stub)
 		ctx, cancel := context.WithCancel(context.Background())
 		defer cancel()
-		if err := c.Connect(ctx); err != nil {
-			return t, err
+		// one case in five queues its first requests before Connect (Q is allowed then): what Q
+		// records there — a send error for a reused pending id included — is the client's, not the
+		// stream's, and must still be there afterwards
+		pre := r.IntN(5) == 0
+		// one case in six numbers its operations from 0: an id of 0 is an id like any other
+		idBase := uint64(1)
+		if r.IntN(6) == 0 {
+			idBase = 0
+		}
+		var st *stubStream
+		connect := func() error {
+			if err := c.Connect(ctx); err != nil {
+				return err
+			}
+			st = stub.last()
+			return nil
+		}
+		if !pre {
+			if err := connect(); err != nil {
+				return t, err
+			}
 		}
 		defer func() {
 			done := make(chan struct{})
@@ -157,7 +176,6 @@ func clientCase(seed uint64, idx int) *CaseSpec {
 			case <-time.After(wd(2 * time.Second)):
 			}
 		}()
-		st := stub.last()
 		t.Add("cl.new %s", B(fib))
 		obs := func() bool {
 			l, err := obsClient(c)
@@ -184,8 +202,8 @@ func clientCase(seed uint64, idx int) *CaseSpec {
 			req := &spb.ModifyRequest{}
 			parts := []string{}
 			for i := 0; i < n; i++ {
-				id := nextID + 1
-				if len(outstanding) > 0 && r.IntN(40) == 0 {
+				id := nextID + idBase
+				if len(outstanding) > 0 && (r.IntN(40) == 0 || (pre && st == nil && r.IntN(3) == 0)) {
 					id = outstanding[r.IntN(len(outstanding))].id // duplicate pending id
 				} else {
 					nextID++
@@ -224,10 +242,27 @@ func clientCase(seed uint64, idx int) *CaseSpec {
 			}
 		}
 		steps := 20 + r.IntN(15)
+		preSteps := 0
+		if pre {
+			preSteps = 2 + r.IntN(3)
+		}
 		for s := 0; s < steps && !dead; s++ {
 			x := r.IntN(100)
+			if pre && st == nil {
+				if s < preSteps {
+					x = 0 // a request is queued
+				} else {
+					if err := connect(); err != nil {
+						return t, err
+					}
+					t.Add("cl.connect")
+					if !obs() {
+						break
+					}
+				}
+			}
 			switch {
-			case !started && (s > 2 || x < 40):
+			case st != nil && !started && (s > 2 || x < 40):
 				c.StartSending()
 				started = true
 				pendElec, pendParams = true, true
